@@ -61,7 +61,9 @@ func (rm *RegistrationManager) HandleRegUpdates(ctx context.Context, regChan <-c
 	defer close(shallowBuffer)
 
 	// Add to registration manager so that we cann access it for stats printing.
+	rm.ingestChanMu.Lock()
 	rm.ingestChan = shallowBuffer
+	rm.ingestChanMu.Unlock()
 
 	// launch workers
 	for i := 0; i < workers; i++ {
